@@ -120,12 +120,24 @@ impl Block for SymbolSync {
         if o.is_empty() {
             return Ok(BlockRet::WaitForStream(&self.dst, 1));
         }
-        // TODO: get rid of unwrap.
-        let mut out_clock = self.out_clock.as_mut().map(|x| x.write_buf().unwrap());
+        let mut out_clock = match self.out_clock.as_ref() {
+            None => None,
+            Some(s) => {
+                let c = s.write_buf()?;
+                if c.is_empty() {
+                    return Ok(BlockRet::WaitForStream(s, 1));
+                }
+                Some(c)
+            }
+        };
 
         let mut n = 0; // Samples consumed.
         let mut opos = 0; // Current output position.
-        let olen = o.len();
+        let olen = if let Some(ref clock) = out_clock {
+            std::cmp::min(o.len(), clock.len())
+        } else {
+            o.len()
+        };
         let oslice = o.slice();
         for sample in input.iter() {
             if opos == olen {
